@@ -101,6 +101,9 @@ pub open spec fn fold2(op: ByteCode, a: SNode, b: SNode) -> SNode {
 }
 pub struct P<T> { pub ast: AstNode<T>, pub end: nat, pub lbl: u32, pub details: Set<Seq<char>>, pub node: SNode }
 
+pub open spec fn close_label(n: SNode, label: u32) -> SNode {
+    match n { SNode::Code(s) => SNode::Code(s + seq![PreResolvedCodePoint::Label(label)]), SNode::Const(c) => SNode::Const(c) }
+}
 /// the next lower grammar level (unary / member / primary): uninterpreted here
 pub uninterp spec fn sp_unary(toks: Seq<TokenWithLoc>, pos: nat, lbl: u32) -> Option<P<Unary>>;
 '''
@@ -120,7 +123,7 @@ pub open spec fn is_{name}_op(t: Token) -> bool {{ {is_op} }}
 pub open spec fn {name}_bytecode(t: Token) -> ByteCode {{ match t {{ {bc_of} _ => ByteCode::Pop }} }}
 pub open spec fn {name}_binary(t: Token, lhs: AstNode<{T}>, rhs: AstNode<{lowerT}>) -> {T} {{ match t {{ {ctor} _ => {T}::Unary(rhs) }} }}
 /// one more `op operand`: groups to the LEFT, the operand is one whole next-level expression
-pub open spec fn sp_{name}_loop(toks: Seq<TokenWithLoc>, acc: P<{T}>) -> Option<P<{T}>>
+pub closed spec fn sp_{name}_loop(toks: Seq<TokenWithLoc>, acc: P<{T}>) -> Option<P<{T}>>
     decreases toks.len() - acc.end
 {{
     if acc.end < toks.len() && is_{name}_op(toks[acc.end as int].token) {{
@@ -135,7 +138,7 @@ pub open spec fn sp_{name}_loop(toks: Seq<TokenWithLoc>, acc: P<{T}>) -> Option<
         }}
     }} else {{ Some(acc) }}
 }}
-pub open spec fn sp_{name}(toks: Seq<TokenWithLoc>, pos: nat, lbl: u32) -> Option<P<{T}>> {{
+pub closed spec fn sp_{name}(toks: Seq<TokenWithLoc>, pos: nat, lbl: u32) -> Option<P<{T}>> {{
     match {lower}(toks, pos, lbl) {{
         Some(f) => if f.end <= toks.len() {{
                 sp_{name}_loop(toks, P {{ ast: mk_ast({T}::Unary(f.ast), a_loc(f.ast)), end: f.end, lbl: f.lbl, details: f.details, node: f.node }})
@@ -154,10 +157,95 @@ ADD = level_spec('add', 'Addition', 'sp_mult', 'Multiplication',
                  'Addition::Binary {{ lhs: Box::new(lhs), op: {extra}, rhs: rhs }}')
 
 
-def parse_level(name, T, first, props, arms=()):
-    """contract of parse_<level>"""
+REL = level_spec('rel', 'Relation', 'sp_add', 'Addition',
+                 [('LessThan', 'Lt', 'Relop::Lt'), ('LessEqual', 'Le', 'Relop::Le'), ('EqualEqual', 'Eq', 'Relop::Eq'), ('NotEqual', 'Ne', 'Relop::Ne'),
+                  ('GreaterEqual', 'Ge', 'Relop::Ge'), ('GreaterThan', 'Gt', 'Relop::Gt'), ('In', 'In', 'Relop::In')],
+                 'Relation::Binary {{ lhs: Box::new(lhs), op: {extra}, rhs: rhs }}')
+
+
+def logic_spec(name, T, lower, lowerT, tok, bc, when):
+    """|| and &&: X = lower (op lower)* compiled to  A TEST DUP JMPCOND(when, L) B OP ... L:  with ONE label per level, allocated after
+    the first operand; never folded (the jump fragment is code); the label is appended only when the result is code"""
+    return f'''
+pub open spec fn {name}_jump(label: u32) -> Seq<PreResolvedCodePoint> {{
+    seq![PreResolvedCodePoint::Bytecode(ByteCode::Test), PreResolvedCodePoint::Bytecode(ByteCode::Dup), PreResolvedCodePoint::JmpCond {{ when: JmpWhen::{when}, label: label }}]
+}}
+pub closed spec fn sp_{name}_loop(toks: Seq<TokenWithLoc>, acc: P<{T}>, label: u32) -> Option<P<{T}>>
+    decreases toks.len() - acc.end
+{{
+    if acc.end < toks.len() && toks[acc.end as int].token is {tok} {{
+        match {lower}(toks, acc.end + 1, acc.lbl) {{
+            Some(r) => if r.end > acc.end && r.end <= toks.len() {{
+                    sp_{name}_loop(toks, P {{
+                        ast: mk_ast({T}::Binary {{ lhs: Box::new(acc.ast), rhs: r.ast }}, hull(a_loc(acc.ast), a_loc(r.ast))),
+                        end: r.end, lbl: r.lbl, details: acc.details + r.details,
+                        node: SNode::Code(code_of(acc.node) + {name}_jump(label) + code_of(r.node) + seq![PreResolvedCodePoint::Bytecode(ByteCode::{bc})]) }}, label)
+                }} else {{ None }},
+            None => None,
+        }}
+    }} else {{ Some(acc) }}
+}}
+pub closed spec fn sp_{name}(toks: Seq<TokenWithLoc>, pos: nat, lbl: u32) -> Option<P<{T}>> {{
+    match {lower}(toks, pos, lbl) {{
+        Some(f) => if f.end <= toks.len() && f.lbl < u32::MAX {{
+                match sp_{name}_loop(toks, P {{ ast: mk_ast({T}::Unary(f.ast), a_loc(f.ast)), end: f.end, lbl: (f.lbl + 1) as u32, details: f.details, node: f.node }}, f.lbl) {{
+                    Some(r) => Some(P {{ ast: r.ast, end: r.end, lbl: r.lbl, details: r.details, node: close_label(r.node, f.lbl) }}),
+                    None => None,
+                }}
+            }} else {{ None }},
+        None => None,
+    }}
+}}
+'''
+
+
+AND = logic_spec('and', 'ConditionalAnd', 'sp_rel', 'Relation', 'AndAnd', 'And', 'False')
+OR = logic_spec('or', 'ConditionalOr', 'sp_and', 'ConditionalAnd', 'OrOr', 'Or', 'True')
+
+
+def parse_logic(name, T, first, tok, bc, props, lowerT=None):
+    """contract of parse_conditional_or / parse_conditional_and"""
+    lower = lower_of[name]
+    state = 'P { ast: current_ast, end: self.tokenizer.pos(), lbl: self.next_label, details: current_node.details@, node: node_view(current_node.inner) }'
     return A(
         ret='r', attrs=['#[verifier::exec_allows_no_decreases_clause]'],
+        requires=[('cursor_in_range', 'old(self).tokenizer.pos() <= old(self).tokenizer.toks().len()')],
+        ensures=parse_level(name, T, None, props).ensures,
+        before={'current_node.append_if_bytecode(': 'let ghost pre_node = node_view(current_node.inner);',
+                'Ok((current_node, current_ast))': '''proof {
+    assert(points_of([PreResolvedCodePoint::Label(label)]) =~= seq![PreResolvedCodePoint::Label(label)]);
+    if pre_node is Code { assert(node_view(current_node.inner)->Code_0 =~= pre_node->Code_0 + seq![PreResolvedCodePoint::Label(label)]); }
+    assert(node_view(current_node.inner) == close_label(pre_node, label));
+}'''},
+        after={'let label = self.new_label();': f'let ghost first0 = sp_{lower}(old(self).tokenizer.toks(), old(self).tokenizer.pos(), old(self).next_label)->Some_0;',
+               (f'let (rhs_node, rhs_ast) = self.{first}()?;', 0): 'proof { rhs0 = P { ast: rhs_ast, end: self.tokenizer.pos(), lbl: self.next_label, details: rhs_node.details@, node: node_view(rhs_node.inner) }; }'},
+        loops={0: dict(invariant=[
+            ('token_stream_untouched', 'self.tokenizer.toks() == old(self).tokenizer.toks() && self.tokenizer.pos() <= self.tokenizer.toks().len()'),
+            ('progress', 'self.tokenizer.pos() > old(self).tokenizer.pos()'),
+            ('one_label_per_level', f'label == first0.lbl && sp_{lower}(old(self).tokenizer.toks(), old(self).tokenizer.pos(), old(self).next_label) == Some(first0) && first0.end <= self.tokenizer.toks().len() && first0.lbl < u32::MAX'),
+            ('prefix_parsed_left_grouped', f'''sp_{name}_loop(self.tokenizer.toks(), P {{ ast: mk_ast({T}::Unary(first0.ast), a_loc(first0.ast)), end: first0.end, lbl: (first0.lbl + 1) as u32, details: first0.details, node: first0.node }}, label)
+                == sp_{name}_loop(self.tokenizer.toks(), {state}, label)''', props),
+        ], ensures=[
+            ('no_further_operator_of_this_level', f'''sp_{name}_loop(self.tokenizer.toks(), P {{ ast: mk_ast({T}::Unary(first0.ast), a_loc(first0.ast)), end: first0.end, lbl: (first0.lbl + 1) as u32, details: first0.details, node: first0.node }}, label)
+                == Some({state})''', props),
+        ], pre=f'let ghost acc0 = {state}; let ghost mut rhs0: P<{lowerT}> = arbitrary();',
+           post=f'''proof {{
+    let toks = self.tokenizer.toks();
+    if acc0.end < toks.len() && toks[acc0.end as int].token is {tok} {{
+        assert(sp_{lower}(toks, acc0.end + 1, acc0.lbl) == Some(rhs0));
+        assert(current_node.details@ =~= acc0.details + rhs0.details);
+        assert(node_view(current_node.inner) is Code);
+        assert(node_view(current_node.inner)->Code_0 =~= code_of(acc0.node) + {name}_jump(label) + code_of(rhs0.node) + seq![PreResolvedCodePoint::Bytecode(ByteCode::{bc})]);
+        assert(current_ast == mk_ast({T}::Binary {{ lhs: Box::new(acc0.ast), rhs: rhs0.ast }}, hull(a_loc(acc0.ast), a_loc(rhs0.ast))));
+    }}
+}}''')},
+        props=props + ('C01',))
+
+
+def parse_level(name, T, first, props, arms=(), rlimit=None):
+    """contract of parse_<level>"""
+    return A(
+        ret='r', attrs=['#[verifier::exec_allows_no_decreases_clause]'] + ([f'#[verifier::rlimit({rlimit})]'] if rlimit else []),
         requires=[('cursor_in_range', 'old(self).tokenizer.pos() <= old(self).tokenizer.toks().len()')],
         ensures=[
             ('token_stream_untouched', 'final(self).tokenizer.toks() == old(self).tokenizer.toks() && final(self).tokenizer.pos() <= final(self).tokenizer.toks().len()'),
@@ -216,7 +304,7 @@ def build():
     U.extract('rscel/src/compiler/tokenizer.rs', 'struct TokenWithLoc')
     U.extract('rscel/src/compiler/ast_node.rs', 'struct AstNode')
     U.extract(GR, 'trait FromUnary', annot=A(rewrites=[('pub trait FromUnary', 'pub trait FromUnary: Sized', 'Verus requires Self: Sized for a trait method returning Self')]))
-    for e in ('enum Relop', 'enum AddOp', 'enum MultOp', 'enum Addition', 'enum Multiplication'):
+    for e in ('enum Relop', 'enum AddOp', 'enum MultOp', 'enum Addition', 'enum Multiplication', 'enum Relation', 'enum ConditionalAnd', 'enum ConditionalOr'):
         U.extract(GR, e)
     U.extract(PR, 'enum PreResolvedCodePoint')
     U.extract(PR, 'struct PreResolvedByteCode')
@@ -227,7 +315,7 @@ def build():
     U.raw(C.DERIVED, 'assumed derived impls')
     U.raw(C.VALUE_SPECS + C.TRUTHY_SPEC, 'shared vocabulary')
     U.raw(C.TRAIT_FULL, 'CelValueDyn restated')
-    U.raw(PRELUDE + MULT + ADD, 'grammar specs')
+    U.raw(PRELUDE + MULT + ADD + REL + AND + OR, 'grammar specs')
     U.raw(C.STD_SPECS, 'assumed std specs')
     U.raw(C.AXIOMS.replace('ax::axiom_vec_bytecode_len};', 'ax::axiom_vec_bytecode_len, ax3::axiom_points_of_array1};'), 'axioms')
     U.extract(C.CE, 'impl From<SyntaxError> for CelError', fns={'from': A(ret='r', ensures=[('def', 'r == CelError::Syntax(value)')], props=('C01',))})
@@ -244,6 +332,9 @@ def build():
     }, others='stub')
     U.extract(GR, 'impl FromUnary for Addition', fns={'from_unary': A(ret='r', ensures=[('def', 'r == Addition::Unary(inner)')], props=('C02', 'C01'))})
     U.extract(GR, 'impl FromUnary for Multiplication', fns={'from_unary': A(ret='r', ensures=[('def', 'r == Multiplication::Unary(inner)')], props=('C02', 'C01'))})
+    U.extract(GR, 'impl FromUnary for Relation', fns={'from_unary': A(ret='r', ensures=[('def', 'r == Relation::Unary(inner)')], props=('C02', 'C01'))})
+    U.extract(GR, 'impl FromUnary for ConditionalAnd', fns={'from_unary': A(ret='r', ensures=[('def', 'r == ConditionalAnd::Unary(inner)')], props=('C02', 'C01'))})
+    U.extract(GR, 'impl FromUnary for ConditionalOr', fns={'from_unary': A(ret='r', ensures=[('def', 'r == ConditionalOr::Unary(inner)')], props=('C02', 'C01'))})
     U.extract(GR, 'fn into_unary', annot=A(stub=True, ret='r', ensures=[('wraps', 'r.0 == v.0 && exists|n: U| call_ensures(U::from_unary, (v.1,), n) && r.1 == mk_ast(n, a_loc(v.1))')]))
     U.extract('rscel/src/program/program_details.rs', 'impl ProgramDetails', fns={
         'new': A(stub=True, ret='r', ensures=[('empty', 'r@ == Set::<Seq<char>>::empty()')]),
@@ -255,6 +346,18 @@ def build():
         'extend': A(stub=True, ensures=[('appends_in_order', 'final(self)@ == old(self)@ + points_of(byte_codes)')]),
         'into_iter': A(external_body=True, ret='r', ensures=[('yields_the_points_in_order', 'points_of(r) == self@')]),
     })
+    binop = lambda op: A(stub=True, ret='r', ensures=[('function_of_operands', f'r == op2(ByteCode::{op}, self, rhs)')])
+    U.extract(C.CV, 'impl CelValue', fns={
+        'or': A(stub=True, ret='r', ensures=[('function_of_operands', 'r == op2(ByteCode::Or, *self, *rhs)')]),
+        'and': binop('And'), 'lt': binop('Lt'), 'le': binop('Le'), 'gt': binop('Gt'), 'ge': binop('Ge'), 'neq': binop('Ne'), 'in_': binop('In'),
+    }, others='stub')
+    U.extract(C.CV, 'impl CelValueDyn for CelValue', fns={
+        'eq': A(stub=True, ret='r', ensures=[('function_of_operands', 'r == op2(ByteCode::Eq, *self, *rhs_val)')]),
+    }, others='stub', skip=('any_ref',))
+    U.extract(CPR, 'impl CompiledProg', fns={
+        'with_code_points': A(stub=True, ret='r', ensures=[('code_without_identifiers', 'node_view(r.inner) == SNode::Code(bytecode@) && r.details@ == Set::<Seq<char>>::empty()')]),
+        'append_if_bytecode': A(stub=True, ensures=[('appends_to_code_only', 'node_view(final(self).inner) == (match node_view(old(self).inner) { SNode::Code(s) => SNode::Code(s + points_of(b)), SNode::Const(c) => SNode::Const(c) }) && final(self).details@ == old(self).details@')]),
+    })
     U.extract(CPR, 'impl NodeValue', fns={
         'into_bytecode': A(stub=True, ret='r', ensures=[('a_constant_becomes_a_push', 'r@ == code_of(node_view(self))')]),
     })
@@ -262,6 +365,12 @@ def build():
         'parse_unary': A(stub=True, ret='r',
                          requires=[('cursor_in_range', 'old(self).tokenizer.pos() <= old(self).tokenizer.toks().len()')],
                          ensures=parse_level('unary', 'Unary', None, ('C02',)).ensures),
+        'new_label': A(stub=True, ret='r', ensures=[('fresh_label', 'r == old(self).next_label && final(self).next_label == old(self).next_label + 1 && final(self).tokenizer == old(self).tokenizer'),
+                                                  ('ASSUMED_no_overflow_of_the_label_counter', 'old(self).next_label < u32::MAX')]),
+        'parse_relation': parse_level('rel', 'Relation', 'parse_addition', ('C02', 'C18', 'C17', 'C09', 'C10'),
+                                      [('LessThan', 'Lt'), ('LessEqual', 'Le'), ('EqualEqual', 'Eq'), ('NotEqual', 'Ne'), ('GreaterEqual', 'Ge'), ('GreaterThan', 'Gt'), ('In', 'In')], rlimit=200),
+        'parse_conditional_and': parse_logic('and', 'ConditionalAnd', 'parse_relation', 'AndAnd', 'And', ('C02', 'C18', 'C17', 'C05', 'C09', 'C10'), 'Relation'),
+        'parse_conditional_or': parse_logic('or', 'ConditionalOr', 'parse_conditional_and', 'OrOr', 'Or', ('C02', 'C18', 'C17', 'C05', 'C09', 'C10'), 'ConditionalAnd'),
         'parse_multiplication': parse_level('mult', 'Multiplication', 'parse_unary', ('C02', 'C18', 'C17', 'C09', 'C10'), [('Multiply', 'Mul'), ('Divide', 'Div'), ('Mod', 'Mod')]),
         'parse_addition': parse_level('add', 'Addition', 'parse_multiplication', ('C02', 'C18', 'C17', 'C09', 'C10'), [('Add', 'Add'), ('Minus', 'Sub')]),
     })
